@@ -191,9 +191,37 @@ class PEval:
             self._h = Hierarchy(self.prog)
         return self._h
 
+    def _module_state(self, mi, name, fi, depth):
+        """module-level names that denote one long-lived object: a mutable container literal (one object per analysis, so
+        that a memo table filled by one folded call is seen by the next), or the rule table loaded from rules.json"""
+        key = ("<module>", mi.name, name)
+        if key in self.class_state:
+            return self.class_state[key]
+        v = mi.consts.get(name)
+        if mi.const_multi.get(name, 0) != 1 or v is None:
+            return None
+        if isinstance(v, (ast.Dict, ast.List, ast.Set)) and not (v.keys if isinstance(v, ast.Dict) else v.elts):
+            self.class_state[key] = {} if isinstance(v, ast.Dict) else [] if isinstance(v, ast.List) else set()
+            return self.class_state[key]
+        if isinstance(v, ast.Call) and isinstance(v.func, ast.Name) and v.func.id in ("dict", "list", "set") and not v.args and not v.keywords:
+            self.class_state[key] = {"dict": dict, "list": list, "set": set}[v.func.id]()
+            return self.class_state[key]
+        if isinstance(v, ast.Call):
+            r = self.prog.resolve_name_expr(mi, v.func)
+            if r and r[0] == "func" and self.w.is_json_loader(r[1]):
+                self.class_state[key] = self.prog.load_rules_json()
+                return self.class_state[key]
+        return None
+
     def assign(self, t, v, env, fi, depth):
         if isinstance(t, ast.Name):
             env[t.id] = v
+        elif isinstance(t, ast.Attribute):
+            base = self.eval(t.value, env, fi, depth)
+            if isinstance(base, dict) and isinstance(base.get("__obj__"), bool):
+                base[t.attr] = v
+            else:
+                raise PEvalUnsupported(f"attribute store on {type(base).__name__}")
         elif isinstance(t, (ast.Tuple, ast.List)):
             if isinstance(v, Opaque):
                 raise PEvalUnsupported("unpacking of an opaque value")
@@ -264,10 +292,14 @@ class PEval:
                 return env[e.id]
             if e.id in _TYPES:
                 return _TYPES[e.id]
+            r = self.prog.resolve_name_expr(fi.module, e)
+            if r and r[0] == "const":
+                ms = self._module_state(r[1], r[2], fi, depth)
+                if ms is not None:
+                    return ms
             v = self.prog.const(fi.module, e)
             if v is not UNKNOWN:
                 return v
-            r = self.prog.resolve_name_expr(fi.module, e)
             if r and r[0] in ("class", "func", "module"):
                 return r
             return Opaque(e.id)
@@ -514,7 +546,7 @@ class PEval:
             m = self.w.lookup_method(fi.cls, f.attr)
             if m is not None:
                 target = m
-                recv = [env.get(f.value.id, Opaque(f.value.id))]
+                recv = [env.get(f.value.id, Opaque(f.value.id))] if m.kind != "static" else []
         if target is not None and target.qname in self.stubs:
             return self.stubs[target.qname]
         if target is not None:
